@@ -7,18 +7,18 @@ extern "C" {
 // ---------------- F1 (Engine B): what leaves the left cell enters the right cell; one common limiter factor
 static inline void sym_state(HydroVariables &s) {
   for (int k = 0; k < 5; ++k) { s._primitives[k] = nondet_double(); s._conserved[k] = nondet_double(); s._primitive_gradients[k] = CoordinateVector<>(nondet_double(), nondet_double(), nondet_double()); }
-  __CPROVER_assume(s._primitives[0] >= 0. && s._primitives[4] >= 0. && s._conserved[0] >= 0. && s._conserved[4] >= 0.);
+  __CPROVER_assume((s._primitives[0] >= 0.) & (s._primitives[4] >= 0.) & (s._conserved[0] >= 0.) & (s._conserved[4] >= 0.));
 }
 __attribute__((noinline)) void h_f1_flux_application(void) {
   Hydro &hy = g_uh.h;
-  const_cast<double &>(hy._gamma) = nondet_double(); __CPROVER_assume(hy._gamma > 1. && hy._gamma <= 2.);
+  const_cast<double &>(hy._gamma) = nondet_double(); __CPROVER_assume((hy._gamma > 1.) & (hy._gamma <= 2.));
   union U2 { HydroVariables v[4]; U2() {} ~U2() {} } u;
   HydroVariables &L = u.v[0], &R = u.v[1], &L2 = u.v[2], &R2 = u.v[3];
   sym_state(L); sym_state(R);
   __builtin_memcpy(&L2, &L, sizeof(HydroVariables)); __builtin_memcpy(&R2, &R, sizeof(HydroVariables));
   double dL[5], dR[5];
   for (int k = 0; k < 5; ++k) { L._delta_conserved[k] = 0.; R._delta_conserved[k] = 0.; dL[k] = L2._delta_conserved[k] = nondet_double(); dR[k] = R2._delta_conserved[k] = nondet_double(); }
-  const double dx = nondet_double(), A = nondet_double(), dt = nondet_double(); __CPROVER_assume(dx > 0. && A > 0. && dt > 0.);
+  const double dx = nondet_double(), A = nondet_double(), dt = nondet_double(); __CPROVER_assume((dx > 0.) & (A > 0.) & (dt > 0.));
   hy.do_flux_calculation(DIR, L, R, dx, A, dt);            // run 1: no pending changes
   hy.do_flux_calculation(DIR, L2, R2, dx, A, dt);          // run 2: same states, arbitrary pending changes
   for (int k = 0; k < 5; ++k) {
